@@ -458,7 +458,7 @@ class NetWorld(object):
     def reset(self):
         self.nsock = 0; self.sent = []; self.events = []; self.socks = []; self.fail_next = 0; self.effective = []
         self.S.SocketDriver._instances[:] = []
-        del self.D._newDrivers[:]
+        self.D._newDrivers.clear()
 
 _NET = None
 def networld():
@@ -549,7 +549,7 @@ class RealRun(object):
         finally:
             nets.filename, nets.noFlush = old_name, old_noflush
         self.w.S.SocketDriver._instances[:] = []
-        del self.w.D._newDrivers[:]
+        self.w.D._newDrivers.clear()
         self.w.sent = []; self.w.events = []
         del self.trace[:]
         del b.excs[:]
